@@ -318,6 +318,11 @@ func run(c *mcx.Ctx) {
 		if c.Thorough() || cs.Threshold+cs.Extra <= 2 {
 			bound = 1
 		}
+		if (cs.Paths != "" || cs.LinkNames != "") && cs.Threshold+cs.Extra > 2 {
+			// the path-spelling and name-field variants keep the quick tier's deviation bound in both tiers (the
+			// reference-link pick and the counting loops are still enumerated in every order)
+			bound = 0
+		}
 		sig, obs, choices, ex, outs := explore(c, cs, bound)
 		c.Impl(ex.Executions)
 		c.Step(1, ex.PointsSeen)
